@@ -129,6 +129,10 @@ func c09Enumerate(tier string, yield func(any)) {
 			ca := p
 			ca.Kind, ca.HasList, ca.Subject = "api", true, s
 			yield(&ca)
+			if len(p.Attrs) == 1 && !p.AllowOther && p.Attrs[0] == "CN" {
+				// ... and a profile without any subject rules
+				yield(&c09Case{Kind: "api", HasList: false, Subject: s})
+			}
 			for pos := 0; pos < 3; pos++ {
 				c := p
 				c.Kind, c.HasList, c.Subject, c.Pos = "pipe", true, s, pos
@@ -290,6 +294,9 @@ func c09API(x *engine.Ctx, c *c09Case) {
 		}
 		prof.SubjAttrs.Attributes = append(prof.SubjAttrs.Attributes, sa)
 	}
+	if !c.HasList {
+		prof.SubjAttrs = nil // a profile without subject rules accepts every subject
+	}
 	d := &Dir{Profiles: []*refcfg.ProfileCfg{prof, {Path: "open.yaml", Name: "open"}},
 		Certs: []*refcfg.CertCfg{{Path: "ee.yaml", Subject: c09SubjectString(c.Subject), KeyAlg: "P-224", Profile: "open"}}}
 	w := simfs.New(simfs.TickPerWrite)
@@ -300,12 +307,30 @@ func c09API(x *engine.Ctx, c *c09Case) {
 	}
 	want, _, reason := c09Model(c, c.Subject)
 	x.Nontrivial(fmt.Sprintf("api %v %v %v %v", c.Attrs, c.Optional, c.AllowOther, c.Subject))
-	for mode := 0; mode < 2; mode++ {
+	for mode := 0; mode < 3; mode++ {
 		w2 := w.Clone()
 		fsdb := filesystem.NewFilesystemDatabase(w2)
 		if err := fsdb.Open(); err != nil {
 			x.Violation("C09/api/open-failed", err.Error())
 			return
+		}
+		profName := "p"
+		if mode == 2 {
+			// the profile as parsed from its file is registered once more under another name through AddProfile
+			po, err := fsdb.GetProfile("p")
+			if err != nil || po == nil {
+				fsdb.Close()
+				x.Violation("C09/api/no-profile", fmt.Sprint(err))
+				return
+			}
+			np := *po
+			np.Name = "p-added"
+			if err := fsdb.AddProfile(np); err != nil {
+				fsdb.Close()
+				x.Violation("C09/api/add-profile-failed", err.Error())
+				return
+			}
+			profName = "p-added"
 		}
 		cfg, err := fsdb.GetConfig("ee")
 		if err != nil || cfg == nil {
@@ -314,11 +339,14 @@ func c09API(x *engine.Ctx, c *c09Case) {
 			return
 		}
 		nc := *cfg
-		nc.Profile = "p"
+		nc.Profile = profName
 		how := "stored entity pointed at the profile, overwrite"
-		if mode == 1 {
+		if mode >= 1 {
 			nc.Alias = "fresh"
 			how = "new alias under the profile"
+		}
+		if mode == 2 {
+			how = "new alias under the profile registered through AddProfile"
 		}
 		before := w2.Clone()
 		w2.BeginRun(nil)
@@ -467,7 +495,7 @@ func init() {
 	register(&engine.Check{
 		ID:          "C09",
 		Level:       "model_checking",
-		Rule:        "every profile = (attribute list of length 0..4 over {CN,O,C,1.2.3.4} x optional flag) x allowOther, plus the absent list (9363 profiles) x every subject of length 0..5 over {CN,O,C,1.2.3.4,L} (3905), and the same product over {1.2.3.4, 2.5.4.97, CN} with subjects over those plus L (3108 profiles x 1364 subjects): config.Validate on the real parsed RDN sequence vs. the reference predicate transcribed from the statement, one profile object shared by all its subjects as in a run and compared with its definition after every verdict, every verdict asked for twice on the same objects; plus 7 profiles x 9 subjects x 3 positions of the constrained entity in a root->mid->leaf chain through the whole file pipeline (rejected => planning error, empty write log), on a fresh directory, with a 60 / 80 / 300 KiB comment block in the profile file in front of its subject rules or at its top, and on a directory first generated under a profile of the same name without subject rules and then run with default / -m only / all four reasons / -a; the same 7 x 9 through db.AddAndSign (a settled entity fetched, pointed at the profile and signed again with overwrite; a new alias under the profile): a rejected certificate gives an error and no artifact is written or changed; and three forbidden subjects with the read of the profile file breaking off after every possible number of bytes (the subject must not be certified, whatever arrived). Pairs are distinct by construction; states = profiles, transitions = Validate calls / runs",
+		Rule:        "every profile = (attribute list of length 0..4 over {CN,O,C,1.2.3.4} x optional flag) x allowOther, plus the absent list (9363 profiles) x every subject of length 0..5 over {CN,O,C,1.2.3.4,L} (3905), and the same product over {1.2.3.4, 2.5.4.97, CN} with subjects over those plus L (3108 profiles x 1364 subjects): config.Validate on the real parsed RDN sequence vs. the reference predicate transcribed from the statement, one profile object shared by all its subjects as in a run and compared with its definition after every verdict, every verdict asked for twice on the same objects; plus 7 profiles x 9 subjects x 3 positions of the constrained entity in a root->mid->leaf chain through the whole file pipeline (rejected => planning error, empty write log), on a fresh directory, with a 60 / 80 / 300 KiB comment block in the profile file in front of its subject rules or at its top, and on a directory first generated under a profile of the same name without subject rules and then run with default / -m only / all four reasons / -a; the same 7 x 9 through db.AddAndSign (a settled entity fetched, pointed at the profile and signed again with overwrite; a new alias under the profile, also with the profile registered through AddProfile and with a profile that has no subject rules): a rejected certificate gives an error and no artifact is written or changed; and three forbidden subjects with the read of the profile file breaking off after every possible number of bytes (the subject must not be certified, whatever arrived). Pairs are distinct by construction; states = profiles, transitions = Validate calls / runs",
 		Bound:       map[string]string{"profile length": "<=4", "subject length": "<=5", "alphabet": "3 short names + 1 custom OID + 1 foreign attribute"},
 		Assumptions: []string{"profile attributes that the schema allows but no table resolves (PC, DC, T, UID, MAIL) are outside the statement"},
 		Budget:      budgets(quickBudget, thoroughBudget),
